@@ -112,9 +112,11 @@ send(int fd, const void * buf, size_t len, int flags)
 		g_send_last = -1;
 		return (-1);
 	}
-	g_send_last = 1;
-	if (len == 0)
+	if (len == 0) {
+		g_send_last = 0;
 		return (0);
+	}
+	g_send_last = 1;
 	__CPROVER_assume(n >= 1 && n <= len && n <= (size_t)SSIZE_MAX);
 	if (g_peer_idx >= g_sent_pos && g_peer_idx - g_sent_pos < n) {
 		if (g_sent_seen)
